@@ -42,7 +42,11 @@ class TargetURI:
         """Constructs a instance of TargetURI with the given arguments.
         The ``args`` dict is used for the query string.
         """
-        netloc = host if port is None else join_host_port(host, port)
+        if port is not None:
+            netloc = join_host_port(host, port)
+        else:
+            # An IPv6 address needs its brackets also when no port follows
+            netloc = f"[{host}]" if ":" in host else host
         return cls(urlunparse((scheme, netloc, "", "", urlencode(args), "")))
 
     @property
